@@ -80,10 +80,14 @@ func c20Family(rng *rand.Rand, fam int, variant int) c20Query {
 	}
 }
 
+// c20ForceIdx >= 0: c20Queries returns that member of its pool (the first cases of a run walk the pool once, so that
+// every query kind is the first instance's query at least once whatever the seed)
+var c20ForceIdx = -1
+
 func c20Queries(rng *rand.Rand) c20Query {
 	n := 1 + rng.Intn(3)
 	N := strconv.Itoa(n)
-	if rng.Intn(4) == 0 {
+	if c20ForceIdx < 0 && rng.Intn(4) == 0 {
 		return c20Family(rng, rng.Intn(7), rng.Intn(6))
 	}
 	pool := []c20Query{
@@ -116,6 +120,8 @@ func c20Queries(rng *rand.Rand) c20Query {
 		{sql: "SELECT id, k, changed_cols('c_', true, v) FROM stream", kind: "analytic-multi", analytic: []string{"changed_cols('c_', true, v)"}, multi: []bool{true}},
 		{sql: "SELECT id, CASE WHEN v > 5 THEN 'hi' WHEN w > 5 THEN 'mid' ELSE 'lo' END AS r FROM stream", kind: "expr"},
 		{sql: "SELECT k, sum(v + w) AS s, max(v + w) AS m, count(*) AS c FROM stream GROUP BY k, CountingWindow(" + N + ")", kind: "window", window: n, group: []string{"k"}},
+		// a function key that cannot be computed for some rows (v absent / NULL / text): nothing is injected, and nothing is written
+		{sql: "SELECT floor(v * 0.1) AS fb, last_value(k) AS lk, count(*) AS c FROM stream GROUP BY floor(v * 0.1), CountingWindow(" + N + ")", kind: "groupfn", window: n, group: []string{"floor(v*0.1)"}},
 		// a FROM alias without a JOIN: the row is still the caller's map (no enriched copy exists)
 		{sql: "SELECT upper(k) AS uk, count(*) AS c FROM stream s GROUP BY upper(k), CountingWindow(" + N + ")", kind: "groupfn", window: n, group: []string{"upper(k)"}},
 		{sql: "SELECT id, lag(v) AS p FROM stream s", kind: "analytic-select", analytic: []string{"p"}},
@@ -125,6 +131,9 @@ func c20Queries(rng *rand.Rand) c20Query {
 		{sql: "SELECT s.id, m.loc, lag(s.v) AS p FROM stream s JOIN meta m ON s.dev = m.dev", kind: "join-analytic", join: true, analytic: []string{"p"}},
 		{sql: "SELECT m.loc, count(*) AS c FROM stream s JOIN meta m ON s.dev = m.dev GROUP BY m.loc, CountingWindow(" + N + ")", kind: "join-window", join: true, window: n, group: []string{"m.loc"}},
 		{sql: "SELECT upper(m.loc) AS ul, count(*) AS c FROM stream s LEFT JOIN meta m ON s.dev = m.dev GROUP BY upper(m.loc), CountingWindow(" + N + ")", kind: "join-groupfn", join: true, window: n, group: []string{"upper(m.loc)"}},
+	}
+	if c20ForceIdx >= 0 {
+		return pool[c20ForceIdx%len(pool)]
 	}
 	if rng.Intn(6) == 0 { // a plain projection drawn from the C05 grammar
 		tmpl := c20Template(rng)
@@ -239,9 +248,14 @@ func c20DecRows(t []string) ([]map[string]interface{}, []string) {
 
 func (c20) Gen(rng *rand.Rand, tier string, idx int) Case {
 	var c Case
+	walk := idx < 48 // the pool has fewer members than that
+	if walk {
+		c20ForceIdx = idx
+	}
 	qa := c20Queries(rng)
+	c20ForceIdx = -1
 	qb := c20Queries(rng)
-	skew := rng.Intn(6) == 0
+	skew := !walk && rng.Intn(6) == 0
 	if skew {
 		// same expression text over bare columns in both instances, differently typed rows (see below)
 		n := 1 + rng.Intn(3)
@@ -256,6 +270,8 @@ func (c20) Gen(rng *rand.Rand, tier string, idx int) Case {
 		qa = skewQs[rng.Intn(len(skewQs))]
 		qb = qa
 		c.Stat = append(c.Stat, "pair-same-sql")
+	} else if walk {
+		c.Stat = append(c.Stat, "pair-different-sql", "pool-walk")
 	} else if rng.Intn(10) == 0 {
 		// two instances whose expression texts differ in letter case only (a literal, or a column: k / K)
 		v := rng.Intn(3)
@@ -279,6 +295,16 @@ func (c20) Gen(rng *rand.Rand, tier string, idx int) Case {
 	c.Stat = append(c.Stat, "kind-"+qa.kind)
 	mkRow := func(id int) map[string]interface{} {
 		r := c20Row(rng, id)
+		if walk { // the pool walk shows every query a row without v, one with v NULL and one with v as text
+			switch id % 5 {
+			case 2:
+				delete(r, "v")
+			case 3:
+				r["v"] = nil
+			case 4:
+				r["v"] = "12"
+			}
+		}
 		if qa.kind == "unnest" || qb.kind == "unnest" {
 			// an array of objects in every row: unnest expands it next to the other selected columns, and the
 			// elements are the caller's own nested maps
